@@ -165,15 +165,14 @@ class Excel:
             for row_index, row in enumerate(worksheet.iter_rows()):
                 rows_data = []
                 for index, cell in enumerate(row):
-                    if cell.value and (suspicious_constructions := cls._get_suspicious_constructions(cell.value)):
+                    # обрабатываем ArrayFormula, считываем из него значение формулы
+                    # (the safety check looks at the formula text as well, not at the repr of the ArrayFormula object)
+                    value = cell.value.text.strip() if isinstance(cell.value, ArrayFormula) else cell.value
+                    if value and (suspicious_constructions := cls._get_suspicious_constructions(value)):
                         suspicious_cells[f"'{worksheet.title}'{cell.column_letter}{row_index+1}"] = \
                             suspicious_constructions
 
-                    # обрабатываем ArrayFormula, считываем из него значение формулы
-                    if isinstance(cell.value, ArrayFormula):
-                        rows_data.append(cell.value.text.strip())
-                    else:
-                        rows_data.append(cell.value)
+                    rows_data.append(value)
                 worksheet_data.append(rows_data)
                 rows_data_len = len(rows_data)
                 if max_row_len < rows_data_len:
